@@ -23,7 +23,7 @@ RULE = ('TIMEX strings are generated from the productions of TimexRegex (one gen
 EXHAUSTIVE = {'quick': False, 'thorough': False}
 ASSUMPTIONS = ['canonical form = minimal time (T16 not T16:00), 4-digit year, 2-digit month/day/week, amount without leading "." ']
 NO_LIBRARY = False
-JOB_TIMEOUT = 900
+JOB_TIMEOUT = 5400
 
 FIELDS = ['now', 'years', 'months', 'weeks', 'days', 'hours', 'minutes', 'seconds', 'year', 'month',
           'day_of_month', 'day_of_week', 'season', 'week_of_year', 'weekend', 'week_of_month', 'part_of_day',
